@@ -20,17 +20,18 @@ META = {
             "repetition from {4 labels, NOT(a), AND(b,c), OR(a,d), XOR(b,d), a PUBO dict, the constant expressions 1 and 0}, lam in {1, 2.5}: the terms "
             "added to an empty PCBO are tabulated over all 16 assignments and must be 0 where the gate relation holds and >= lam elsewhere, mention no "
             "ancilla, and is_solution_valid must agree with the relation.",
-    "note": "Bounded: 4 variables, arity <= 3/4, operand alphabet of 11. Reference gates are python booleans on reference tables.",
+    "note": "Bounded: 4 variables, arity <= 3/4, operand alphabet of 12. Reference gates are python booleans on reference tables.",
 }
 
 OPERANDS = [["lab", 0], ["lab", 1], ["lab", 2], ["lab", 3], ["NOT", 0], ["AND", 1, 2], ["OR", 0, 3], ["XOR", 1, 3],
-            ["dict", 2], ["const", 1], ["const", 0]]
+            ["dict", 2], ["const", 1], ["const", 0],
+            ["named-and", 1, 2]]      # a model object that carries the NAME of variable b but whose value is b AND c (in-place product)
 GATES = ["AND", "OR", "XOR", "NAND", "NOR", "XNOR"]
 LAMS = (1, 2.5)
 NV = 4
 
 
-REDUCED = [0, 1, 2, 3, 4, 5]      # indices into OPERANDS used at the largest arity
+REDUCED = [0, 1, 2, 3, 4, 5, 11]      # indices into OPERANDS used at the largest arity
 
 
 def arities(tier, extra=0):
@@ -72,7 +73,7 @@ def ref_operand(od, b):
         return b[od[1]].astype(bool)
     if k == "NOT":
         return ~b[od[1]].astype(bool)
-    if k == "AND":
+    if k in ("AND", "named-and"):
         return b[od[1]].astype(bool) & b[od[2]].astype(bool)
     if k == "OR":
         return b[od[1]].astype(bool) | b[od[2]].astype(bool)
@@ -101,6 +102,10 @@ def real_operand(od, labels):
         return sat.XOR(labels[od[1]], labels[od[2]])
     if k == "const":
         return {(): 1} if od[1] else {}
+    if k == "named-and":
+        e = qv.boolean_var(labels[od[1]])
+        e *= qv.boolean_var(labels[od[2]])
+        return e
     raise ValueError(od)
 
 
